@@ -631,6 +631,14 @@ func (env *SpecEnv) call(n *ECall) SVal {
 		s := n.Args[1].(*EStr)
 		T := env.typeByName(s.V)
 		return SVal{V: env.e.unbox(env.st(), v.V.Fs[1].T, T), T: T}
+	case "samearray":
+		// samearray(a, b): the two slices share their backing array
+		a := env.eval(n.Args[0])
+		b := env.eval(n.Args[1])
+		if len(a.V.Fs) != 4 || len(b.V.Fs) != 4 {
+			unsupp("samearray of non-slices")
+		}
+		return gBool(Eq(a.V.Fs[0].T, b.V.Fs[0].T))
 	case "arr2bytes":
 		// a[:] of a byte array a
 		v := env.eval(n.Args[0])
